@@ -247,6 +247,13 @@ def run(ctx):
     # ---- S3 second opinion: snprintf inside the harness, uniform bit patterns in bulk ----------
     per = 120000 if ctx.thorough else 5000
     sets = [("--fmt-doubles", ctx.seed * 1000 + k, per) for k in range(16)]
+    # floats: every subnormal pattern (thorough) / every 257th (quick), and a stride through all 2^32 patterns
+    sub_step = 1 if ctx.thorough else 257
+    chunk = (1 << 23) // 16
+    sets += [("--fmt-floats", k * chunk, (k + 1) * chunk, sub_step) for k in range(16)]
+    all_step = 4099 if ctx.thorough else 1048583
+    span = (1 << 32) // 16
+    sets += [("--fmt-floats", k * span + (ctx.seed % 97), (k + 1) * span, all_step) for k in range(16)]
     if getattr(ctx, "_harness_dead", False):
         sets = []       # the sanitized harness already hung or kept faulting: the verdict is a failure, do not wait for the bulk
     tested = 0
@@ -256,12 +263,12 @@ def run(ctx):
             ctx.infra_errors.append("bulk snprintf run %s failed rc=%s: %s" % (a, rc, out[-500:]))
             continue
         for l in out.split("\n"):
-            if l.startswith("fail d "):
+            if l.startswith("fail d ") or l.startswith("fail f "):
                 t = l.split(" ")
                 ctx.fail("snprintf:" + N.FMT_NAMES[int(t[4])], "differs from snprintf: " + l,
-                         {"line": "n2sr d %s %s %s 1 -" % (t[2], t[3], t[4]), "detail": l})
+                         {"line": "n2sr %s %s %s %s 1 -" % (t[1], t[2], t[3], t[4]), "detail": l})
         tested += int(done[0].split("tested=")[1].split(" ")[0])
-    ctx.count("snprintf-bulk(uniform doubles, not sanitized)", tested, tested)
+    ctx.count("snprintf-bulk(uniform doubles; subnormal floats %s; float stride; not sanitized)" % ("exhaustive" if ctx.thorough else "every 257th"), tested, tested)
     ctx.cov["value_distribution"] = dist
     ctx.assumptions += [
         "BigInt<uint64,1216/256> holds the exact integer (C19); the model checks every product / left shift against the declared width",
